@@ -1412,14 +1412,14 @@ class Encoder:
 
     RI_CALL = re.compile(r"^(?:jiff::)?(?:util::)?(?:rangeint::)?(ri(?:8|16|32|64|128))::<(-?\d+|i\d+::MIN), (-?\d+|i\d+::MAX)>::(\w+)(?:::<(.*)>)?$")
 
-    RI_CONV = re.compile(r"^<((?:\w+::)*Constant|ri(?:8|16|32|64|128)<(?:-?\d+|i\d+::MIN), (?:-?\d+|i\d+::MAX)>) as (?:\w+::)*(RInto|RFrom)<((?:\w+::)*Constant|ri(?:8|16|32|64|128)<(?:-?\d+|i\d+::MIN), (?:-?\d+|i\d+::MAX)>)>>::(rinto|rfrom)$")
+    RI_CONV = re.compile(r"^<((?:\w+::)*Constant|(?:\w+::)*ri(?:8|16|32|64|128)<(?:-?\d+|i\d+::MIN), (?:-?\d+|i\d+::MAX)>) as (?:\w+::)*(RInto|RFrom)<((?:\w+::)*Constant|(?:\w+::)*ri(?:8|16|32|64|128)<(?:-?\d+|i\d+::MIN), (?:-?\d+|i\d+::MAX)>)>>::(rinto|rfrom)$")
 
     def rangeint_conv(self, state, func, args):
         m = self.RI_CONV.match(func.strip())
         if not m or self.debug_assertions or len(args) != 1:
             return None
         tgt = m.group(3) if m.group(2) == "RInto" else m.group(1)
-        mt = re.match(r"^(ri(?:8|16|32|64|128))<", tgt)
+        mt = re.match(r"^(?:\w+::)*(ri(?:8|16|32|64|128))<", tgt)
         if not mt:
             return None
         tgt = mt.group(1)
@@ -1429,7 +1429,7 @@ class Encoder:
         self.notes.append("hand-modelled ranged-integer conversion: %s" % m.group(4))
         return ("value", VAgg({0: self.cast(v.f[0], "i" + tgt[2:], "IntToInt")}, tag=tgt))
 
-    RI_OP = re.compile(r"^<(ri(?:8|16|32|64|128))<(-?\d+|i\d+::MIN), (-?\d+|i\d+::MAX)> as (?:\w+::)*(Add|Sub|Mul|Div|Rem|Neg|AddAssign|SubAssign|MulAssign|DivAssign|RemAssign)(?:<.*>)?>::(\w+)$")
+    RI_OP = re.compile(r"^<(?:\w+::)*(ri(?:8|16|32|64|128))<(-?\d+|i\d+::MIN), (-?\d+|i\d+::MAX)> as (?:\w+::)*(Add|Sub|Mul|Div|Rem|Neg|AddAssign|SubAssign|MulAssign|DivAssign|RemAssign)(?:<.*>)?>::(\w+)$")
 
     def rangeint_op(self, state, func, args):
         """operator traits on ranged integers (release semantics: wrapping add/sub/mul, euclidean div/rem)"""
@@ -1471,7 +1471,7 @@ class Encoder:
             return ("value", VAgg({}))
         return ("value", res)
 
-    RI_CMP = re.compile(r"^<(?:ri(?:8|16|32|64|128)<[^>]*>|(?:\w+::)*Constant) as (?:\w+::)*(PartialEq|PartialOrd|Ord)(?:<.*>)?>::(eq|ne|lt|le|gt|ge|cmp|partial_cmp)$")
+    RI_CMP = re.compile(r"^<(?:(?:\w+::)*ri(?:8|16|32|64|128)<[^>]*>|(?:\w+::)*Constant) as (?:\w+::)*(PartialEq|PartialOrd|Ord)(?:<.*>)?>::(eq|ne|lt|le|gt|ge|cmp|partial_cmp)$")
 
     def rangeint_cmp(self, state, func, args):
         m = self.RI_CMP.match(func.strip())
